@@ -83,8 +83,13 @@ func renderSamples(xs []smpl, max int) string {
 
 // genLen draws the series length: mostly short, a good share long enough (>700 samples) to make
 // DownsampleRaw cut several aggregate chunks at 5m.
-func genLen(rt *rapid.T) int {
-	switch rapid.IntRange(0, 9).Draw(rt, "lenKind") {
+func genLen(rt *rapid.T, slow bool) int {
+	k := rapid.IntRange(0, 9).Draw(rt, "lenKind")
+	if slow && k >= 8 {
+		// enough 5m windows (>1680) for the 1h level to cut several chunks as well
+		return rapid.IntRange(1700, 3000).Draw(rt, "n")
+	}
+	switch k {
 	case 0:
 		return rapid.IntRange(1, 5).Draw(rt, "n")
 	case 1, 2, 3:
@@ -98,8 +103,8 @@ func genLen(rt *rapid.T) int {
 
 // genTimes draws n strictly increasing non-negative millisecond timestamps with irregular spacing
 // (1 ms .. 20 min, plus occasional multi-window gaps), bases at 0, near window boundaries and at
-// realistic epoch values.
-func genTimes(rt *rapid.T, n int, res int64) ([]int64, string) {
+// realistic epoch values. slow biases the spacing towards >= 1 min (spans of hours to days).
+func genTimes(rt *rapid.T, n int, res int64, slow bool) ([]int64, string) {
 	var base int64
 	switch rapid.IntRange(0, 5).Draw(rt, "baseKind") {
 	case 0:
@@ -112,8 +117,11 @@ func genTimes(rt *rapid.T, n int, res int64) ([]int64, string) {
 		base = 1_600_000_000_000 + rapid.Int64Range(0, 30*24*3600*1000).Draw(rt, "base")
 	}
 	intervals := []int64{1, 1000, 15000, 30000, 60000, 120000, 300000, 1200000}
-	if n >= 700 && rapid.IntRange(0, 3).Draw(rt, "slowBias") > 0 {
+	if (n >= 700 || slow) && rapid.IntRange(0, 3).Draw(rt, "slowBias") > 0 {
 		intervals = []int64{60000, 120000, 300000, 1200000}
+		if slow {
+			intervals = []int64{60000, 120000, 300000, 300000, 1200000, 1200000}
+		}
 	}
 	interval := rapid.SampledFrom(intervals).Draw(rt, "interval")
 	mode := rapid.SampledFrom([]string{"regular", "jitter", "free", "bursty"}).Draw(rt, "tmode")
@@ -170,11 +178,11 @@ func genNaN(rt *rapid.T, nanRate int) (float64, bool) {
 
 // genGauge draws a raw float series whose sums are exact in float64 (integers and multiples of
 // 1/8 of bounded magnitude), with NaN and stale-NaN samples mixed in.
-func genGauge(rt *rapid.T, res int64) ([]smpl, string) {
-	n := genLen(rt)
-	ts, tmode := genTimes(rt, n, res)
+func genGauge(rt *rapid.T, res int64, slow bool) ([]smpl, string) {
+	n := genLen(rt, slow)
+	ts, tmode := genTimes(rt, n, res, slow)
 	vkind := rapid.SampledFrom([]string{"int", "dyadic", "big", "const", "mixed"}).Draw(rt, "vkind")
-	nanRate := rapid.SampledFrom([]int{0, 20, 20, 4, 1}).Draw(rt, "nanRate")
+	nanRate := rapid.SampledFrom([]int{0, 0, 20, 20, 20, 4, 4, 4, 2, 2, 1}).Draw(rt, "nanRate")
 	cst := float64(rapid.IntRange(-3, 3).Draw(rt, "const"))
 	xs := make([]smpl, n)
 	for i := range xs {
@@ -204,9 +212,9 @@ func genGauge(rt *rapid.T, res int64) ([]smpl, string) {
 // genCounter draws a raw counter series: non-negative integer values (a negative "counter" would make
 // the aggregated counter itself decrease, which readers rightly treat as a reset), increases,
 // plateaus, resets to 0 / to a smaller value / by exactly 1, NaN and stale markers.
-func genCounter(rt *rapid.T, res int64) ([]smpl, string) {
-	n := genLen(rt)
-	ts, tmode := genTimes(rt, n, res)
+func genCounter(rt *rapid.T, res int64, slow bool) ([]smpl, string) {
+	n := genLen(rt, slow)
+	ts, tmode := genTimes(rt, n, res, slow)
 	resetRate := rapid.SampledFrom([]int{0, 100, 10, 3, 2}).Draw(rt, "resetRate")
 	nanRate := rapid.SampledFrom([]int{0, 0, 20, 4}).Draw(rt, "nanRate")
 	maxInc := rapid.SampledFrom([]int64{1, 10, 1000, 1 << 30}).Draw(rt, "maxInc")
